@@ -162,13 +162,16 @@ def proof_stage(pid, prop_module, extra_modules=(), thorough=False):
 # --------------------------------------------------------------------------- evidence, replays, findings
 
 def write_evidence(pid, tier, seed, coverage, wall, violations, assumptions=None, level="proof"):
-    os.makedirs(os.path.join(VERIF, "evidence"), exist_ok=True)
+    # VERIF_EVIDENCE_DIR: used by tools/seedall.py / seedtest.sh so that runs against a deliberately
+    # broken tree do not overwrite the evidence of the unchanged tree
+    evdir = os.environ.get("VERIF_EVIDENCE_DIR") or os.path.join(VERIF, "evidence")
+    os.makedirs(evdir, exist_ok=True)
     ev = {
         "property_id": pid, "tier": tier, "seed": seed, "level": level,
         "coverage": coverage, "wall_s": round(wall, 2), "violations": violations,
         "assumptions": assumptions or [],
     }
-    with open(os.path.join(VERIF, "evidence", pid + ".json"), "w") as f:
+    with open(os.path.join(evdir, pid + ".json"), "w") as f:
         json.dump(ev, f, indent=1, default=str)
         f.write("\n")
 
